@@ -10,6 +10,7 @@ import (
 	zzmem "github.com/gittuf/gittuf/internal/zzmem"
 	verif "github.com/gittuf/gittuf/internal/zzverif"
 	"github.com/gittuf/gittuf/pkg/githash"
+	"github.com/gittuf/gittuf/pkg/gitinterface"
 	"github.com/gittuf/gittuf/pkg/gitstore"
 )
 
@@ -104,13 +105,14 @@ func zz3ParseNumber(msg string) (uint64, bool) {
 
 type zz3World struct {
 	s       *zzmem.Store
+	st      gitstore.Storer // what the recorders are given: s itself, or the real gitinterface.Repository over the git command model on s
 	commits []githash.Hash // target commits: c0 <- c1, c2 unrelated
 	blob    githash.Hash
 }
 
 func zz3NewWorld() *zz3World {
 	s := zzmem.New(3)
-	w := &zz3World{s: s}
+	w := &zz3World{s: s, st: s}
 	t0 := s.RawTree([]gitstore.TreeEntry{{Path: "a", ID: s.RawBlob([]byte("1")), Kind: gitstore.KindBlob}})
 	t1 := s.RawTree([]gitstore.TreeEntry{{Path: "a", ID: s.RawBlob([]byte("2")), Kind: gitstore.KindBlob}})
 	c0 := s.RawCommit("", t0, nil, "c0", zzmem.Unsigned)
@@ -150,9 +152,9 @@ func zz3Op(w *zz3World, k int, allowUnnumbered bool) (stillUnnumbered bool) {
 		target := w.commits[verif.Concrete(verif.Choice(p+".target", 2))+1]
 		e := NewReferenceEntry(ref, target)
 		if op == 0 {
-			err = e.Commit(s, false)
+			err = e.Commit(w.st, false)
 		} else {
-			err = e.CommitWithoutNumber(s)
+			err = e.CommitWithoutNumber(w.st)
 		}
 	case 1, 5: // annotation
 		var ids []githash.Hash
@@ -187,18 +189,18 @@ func zz3Op(w *zz3World, k int, allowUnnumbered bool) (stillUnnumbered bool) {
 		msg := verif.OneOf(p+".msg", "", "-----BEGIN MESSAGE-----\nnumber: 9")
 		a := NewAnnotationEntry(ids, verif.Bool(p+".skip"), msg)
 		if op == 1 {
-			err = a.Commit(s, false)
+			err = a.Commit(w.st, false)
 		} else {
-			err = a.CommitWithoutNumber(s)
+			err = a.CommitWithoutNumber(w.st)
 		}
 	case 2: // propagation entry
 		ref := verif.OneOf(p+".ref", "refs/heads/main", "refs/gittuf/policy")
 		target := w.commits[1]
 		e := NewPropagationEntry(ref, target, "https://example.com/up", w.commits[0])
-		err = e.Commit(s, false)
+		err = e.Commit(w.st, false)
 	case 3: // automatic skip of rewritten history
 		ref := verif.OneOf(p+".ref", "refs/heads/main", "refs/gittuf/policy")
-		err = SkipAllInvalidReferenceEntriesForRef(s, ref, false)
+		err = SkipAllInvalidReferenceEntriesForRef(w.st, ref, false)
 		if err == nil && s.NumCommits() == beforeCount {
 			appended = 0 // nothing to skip
 		}
@@ -250,27 +252,38 @@ func zz3Op(w *zz3World, k int, allowUnnumbered bool) (stillUnnumbered bool) {
 
 // HarnessC03Sequence: sequences of recording operations from an empty log,
 // optionally beginning with legacy unnumbered entries.
-func HarnessC03Sequence() {
+func HarnessC03Sequence() { zz3Sequence(false) }
+
+// HarnessC03GitInterface: the same sequences recorded through the real
+// gitinterface.Repository (Commit = read tip, commit-tree, compare-and-set
+// update-ref; GetCommitMessage, GetCommitParentIDs, KnowsCommit, ...) over the
+// git command model.
+func HarnessC03GitInterface() { zz3Sequence(true) }
+
+func zz3Sequence(viaGitInterface bool) {
 	w := zz3NewWorld()
 	s := w.s
+	if viaGitInterface {
+		w.st = gitinterface.ZZNewModelRepo(s)
+	}
 	legacy := false
 	// start state, built with the real recorders
 	switch verif.Concrete(verif.Choice("start", 6)) {
 	case 0: // empty log
 	case 1: // numbered log, one entry
-		zz3Must(NewReferenceEntry("refs/heads/main", w.commits[0]).Commit(s, false))
+		zz3Must(NewReferenceEntry("refs/heads/main", w.commits[0]).Commit(w.st, false))
 	case 2: // numbered log: entry for a rewritten branch, newer entry, so that automatic skipping has work
-		zz3Must(NewReferenceEntry("refs/heads/main", w.commits[2]).Commit(s, false))
-		zz3Must(NewReferenceEntry("refs/heads/main", w.commits[1]).Commit(s, false))
+		zz3Must(NewReferenceEntry("refs/heads/main", w.commits[2]).Commit(w.st, false))
+		zz3Must(NewReferenceEntry("refs/heads/main", w.commits[1]).Commit(w.st, false))
 	case 3: // numbered log with an annotation
-		zz3Must(NewReferenceEntry("refs/heads/main", w.commits[0]).Commit(s, false))
-		zz3Must(NewAnnotationEntry([]githash.Hash{s.Ref(Ref)}, true, "msg").Commit(s, false))
+		zz3Must(NewReferenceEntry("refs/heads/main", w.commits[0]).Commit(w.st, false))
+		zz3Must(NewAnnotationEntry([]githash.Hash{s.Ref(Ref)}, true, "msg").Commit(w.st, false))
 	case 4: // legacy log without numbers
-		zz3Must(NewReferenceEntry("refs/heads/main", w.commits[0]).CommitWithoutNumber(s))
+		zz3Must(NewReferenceEntry("refs/heads/main", w.commits[0]).CommitWithoutNumber(w.st))
 		legacy = true
 	default: // legacy log that already moved to numbering
-		zz3Must(NewReferenceEntry("refs/heads/main", w.commits[0]).CommitWithoutNumber(s))
-		zz3Must(NewReferenceEntry("refs/heads/main", w.commits[1]).Commit(s, false))
+		zz3Must(NewReferenceEntry("refs/heads/main", w.commits[0]).CommitWithoutNumber(w.st))
+		zz3Must(NewReferenceEntry("refs/heads/main", w.commits[1]).Commit(w.st, false))
 	}
 	n := verif.Concrete(verif.IntRange("nops", 1, verif.Bound("ops", 2, 3)))
 	for k := 0; k < n; k++ {
